@@ -15,6 +15,18 @@ META = {
     "C03": {"ref": "DESIGN.md §8 C03",
             "text": "Differential symbolic execution: the real parser and a reference precedence-climbing parser (written from the documented ladder) run on the same symbolic token window; for every path on which the reference accepts, the solver discharges 'real accepts' and node-by-node equality of the trees (operators, operands, NOT flags, IN lists, BETWEEN bounds). Clause templates with symbolic presence bits, names and numbers assert that every written clause/modifier/value is in the tree and nothing unwritten is; set-operation chains assert left-associativity and per-operator ALL flags.",
             "note": "Bounded by window length and the template family; the reference parser is the trusted statement of the grammar."},
+    "C07": {"ref": "DESIGN.md §8 C07",
+            "text": "Differential symbolic execution of the four statement loops (Parse, ParseContext, ParseWithPositions, recovery) on the same symbolic token stream: the solver discharges equal verdicts, structurally equal trees and equal error codes on every path. The convenience wrappers and the batch calls are executed through the whole real pipeline on a table of texts with symbolic batch composition.",
+            "note": "Token-level claim bounded by stream length; wrapper-level claim is over a finite table of texts (composition symbolic)."},
+    "C08": {"ref": "DESIGN.md §8 C08",
+            "text": "Inductive step instead of history enumeration: the pre-state of the reused parser is symbolic (arbitrary tokens, cursor, current token, position mapping, configuration) constrained only by an invariant that a first harness proves every entry point re-establishes; from every such state the probe's outcome must equal a fresh instance's (verdict, error code, error location, tree). Pool hand-off / Reset are compared field by field with a new parser.",
+            "note": "The invariant (depth=0, ctx=nil) is part of the claim; bounded probe length."},
+    "C11": {"ref": "DESIGN.md §8 C11",
+            "text": "The moment of cancellation is a symbolic variable: a counting context turns done at poll k (k and the error kind symbolic). On every path the solver discharges: no tree, errors.Is(err, ctx.Err()) through the real wrap chain, at most 2 further polls, the uncancelled run equals the context-free run, and the parser is left without residue (ctx nil, depth restored).",
+            "note": "Inputs: fixed nested statements that put every wrapping site on some path, plus short symbolic continuations."},
+    "C12": {"ref": "DESIGN.md §8 C12",
+            "text": "Recovery parsing on symbolic token soup (termination as an unwinding assertion; errors iff strict parsing fails) and on scripts of statements under symbolic corruptions (kind, position and replacement token symbolic): one error per malformed statement, no well-formed statement lost or reordered, each error names a token of its own statement.",
+            "note": "Bounded soup length / script length; the oracle for 'well-formed' is strict parsing of the statement alone."},
     "C13": {"ref": "DESIGN.md §8 C13",
             "text": "On every error-returning path of the C01 runs the solver discharges: errors.As reaches *errors.Error (the real Unwrap chains are executed), the code belongs to the right family (E1xxx from Tokenize, E2xxx from the parser), the message is non-empty and a set location lies within the input.",
             "note": "Same bounds as C01; message wording and hints are executed but not asserted on."},
